@@ -2,6 +2,7 @@ package main
 
 import (
 	"fmt"
+	"net/url"
 	"regexp"
 	"regexp/syntax"
 	"strconv"
@@ -74,8 +75,35 @@ func evalStringTerm(t *Term, inputKey, input string) (string, bool) {
 			b, ok2 := evalStringTerm(t.Args[1], inputKey, input)
 			return a + b, ok1 && ok2
 		}
+	case "extract":
+		// first result of a pure library function that also returns an error: the value when
+		// the error is nil; an input the function rejects makes the evaluation undefined
+		if t.Name == "0" && len(t.Args) == 1 && t.Args[0].Op == "call" && len(t.Args[0].Args) == 1 {
+			s, ok := evalStringTerm(t.Args[0].Args[0], inputKey, input)
+			if !ok {
+				return "", false
+			}
+			switch t.Args[0].Name {
+			case "net/url.PathUnescape":
+				out, err := url.PathUnescape(s)
+				return out, err == nil
+			case "net/url.QueryUnescape":
+				out, err := url.QueryUnescape(s)
+				return out, err == nil
+			}
+		}
 	case "call":
 		switch t.Name {
+		case "net/url.PathEscape":
+			if len(t.Args) == 1 {
+				s, ok := evalStringTerm(t.Args[0], inputKey, input)
+				return url.PathEscape(s), ok
+			}
+		case "net/url.QueryEscape":
+			if len(t.Args) == 1 {
+				s, ok := evalStringTerm(t.Args[0], inputKey, input)
+				return url.QueryEscape(s), ok
+			}
 		case "strings.Replace":
 			if len(t.Args) == 4 {
 				s, ok1 := evalStringTerm(t.Args[0], inputKey, input)
